@@ -293,6 +293,29 @@ def run_case(case):
                 w = rot(idq, v)
                 if gt(max(abs(w[i] - v[i]) for i in range(3)), 64 * EPS * nrm(v)):
                     add('rotation:q-times-inverse-not-identity', '')
+                # the identity: acts trivially and is neutral in products, bitwise
+                one_ = Rotation()
+                if rot(one_, v) != list(v):
+                    add('rotation:identity-moves-a-vector', '%r -> %r' % (v, rot(one_, v)))
+                for pr_, nm_ in ((one_ * p_, 'left'), (p_ * one_, 'right')):
+                    if (pr_.ix, pr_.iy, pr_.iz, pr_.r) != (p_.ix, p_.iy, p_.iz, p_.r):
+                        add('rotation:identity-not-neutral-in-product', nm_)
+                # normalize(): a rescaled quaternion is brought back to the same rotation; a unit one is left alone to rounding
+                sc_ = 10 ** r.uniform(-3, 3)
+                big_ = Rotation(ix=p_.ix * sc_, iy=p_.iy * sc_, iz=p_.iz * sc_, r=p_.r * sc_).normalize()
+                counters['normalize_checks'] = counters.get('normalize_checks', 0) + 1
+                for a_, b_ in ((big_.ix, p_.ix), (big_.iy, p_.iy), (big_.iz, p_.iz), (big_.r, p_.r)):
+                    if gt(abs(a_ - b_), 16 * EPS):
+                        add('rotation:normalize-does-not-restore-unit-quaternion', 'scale %g: %r vs %r' % (sc_, (big_.ix, big_.iy, big_.iz, big_.r), (p_.ix, p_.iy, p_.iz, p_.r)))
+                        break
+                # the C function returning a rotated copy agrees bitwise with the in-place one used by the Python operator
+                from rebound.vectors import Vec3dBasic
+                clib.reb_vec3d_rotate.restype = Vec3dBasic
+                vb_ = Vec3dBasic()
+                vb_.x, vb_.y, vb_.z = v
+                wv_ = clib.reb_vec3d_rotate(vb_, p_)
+                if [wv_.x, wv_.y, wv_.z] != rot(p_, v):
+                    add('rotation:vec3d_rotate-differs-from-irotate', '%r vs %r' % ([wv_.x, wv_.y, wv_.z], rot(p_, v)))
             cells.add(json.dumps(['rotation', which]))
         # simulation rotation
         for _ in range(case['n'] // 20):
